@@ -23,7 +23,14 @@
  *
  * Script (stdin), one op per line:
  *   cfg w h defer listen maxwait seed mode d budget stick      (first line)
- *   peer k kind p1 p2 soft          kinds: stay leave abrupt slow abandon
+ *   peer k kind p1 p2 flags         kinds: stay leave abrupt slow abandon stall; flags: 1 no cursor-shape
+ *                                   encoding (server draws the cursor), 2 no NewFBSize; stall: after its first
+ *                                   request the peer reads nothing for p1 ms (virtual), then closes (p2=0) or
+ *                                   reads on (p2=1)
+ *   drop k                          the peer's connection is shut down from outside (both directions)
+ *   iterhold h wait k1 k2 ...       application iterator: advance to the (h+1)-th client and rest on it while
+ *                                   the peers k1 k2 ... are dropped one after the other (wait ms in between),
+ *                                   then walk to the end of the list reading every client handed out
  *   connect k | sleep ms | mark x y w h v | copy x y w h dx dy | bell | cut n | cututf8 n fb |
  *   iter | newfb w h v | cycle n | settle ms | shutdown | cleanup
  * Output: "ev ..." trace lines, then "res ..." lines.  Exit code 0 unless the harness itself broke
@@ -675,7 +682,9 @@ ssize_t send(int fd, const void *b, size_t n, int fl) {
 int accept(int fd, struct sockaddr *a, socklen_t *l) {
   if (!MANAGED()) { resolve(); return r_accept(fd, a, l); }
   sched_point("accept");
-  return r_accept(fd, a, l);
+  { int nfd = r_accept(fd, a, l);
+    if (nfd >= 0 && sndbuf > 0 && self && self->role == 'L') setsockopt(nfd, SOL_SOCKET, SO_SNDBUF, &sndbuf, sizeof sndbuf);
+    return nfd; }
 }
 int close(int fd) {
   if (!MANAGED()) { resolve(); return r_close(fd); }
@@ -689,9 +698,9 @@ static void vsleep_ms(unsigned ms) { usleep(ms ? ms * 1000u : 0); }
 
 /* ------------------------------------------------------------------------------------------ */
 /* peers: minimal RFB 3.8 clients (raw + copyrect + rich cursor + newfbsize)                   */
-enum { K_STAY, K_LEAVE, K_ABRUPT, K_SLOW, K_ABANDON };
+enum { K_STAY, K_LEAVE, K_ABRUPT, K_SLOW, K_ABANDON, K_STALL };
 struct peer {
-  int idx, kind, p1, p2, soft;
+  int idx, kind, p1, p2, soft, nonewfb;
   int fd, connected, eof, handshook;
   int w, h; uint32_t *fb;
   int updates, bells, cuts, converged, finished, used;
@@ -707,6 +716,7 @@ static char listen_name[64];
 static volatile int final_phase, server_down;
 static int fbw, fbh; static uint32_t *server_fb;
 static int connect_counter, accept_counter;
+static int sndbuf;   /* >0: SO_SNDBUF of the server-side client sockets (small: writers block early) */
 static int guards;   /* 1 handshake-quiet before bell/cut, 2 wait for stray client threads before cleanup, 4 copy only while output threads idle */
 static peer *pending_accept[MAXCL]; /* connect_seq -> peer */
 
@@ -856,11 +866,17 @@ static void *peer_main(void *arg) {
   if (p->kind == K_ABANDON) goto abandon;
   /* SetEncodings */
   { int32_t encs[5]; int n = 0, i;
-    encs[n++] = 1; encs[n++] = 0; if (!p->soft) encs[n++] = -239; encs[n++] = -223;
+    encs[n++] = 1; encs[n++] = 0; if (!p->soft) encs[n++] = -239; if (!p->nonewfb) encs[n++] = -223;
     b[0] = 2; b[1] = 0; put16(b + 2, n);
     for (i = 0; i < n; i++) put32(b + 4 + 4 * i, (uint32_t)encs[i]);
     if (!p_write(p, b, 4 + 4 * (size_t)n)) goto out; }
   if (!p_send_fur(p, 0)) goto out;
+  if (p->kind == K_STALL) {
+    /* a reader that stops reading: the server's writer runs into its time-out (or not, when the
+       stall is shorter than one retry step) */
+    vsleep_ms((unsigned)p->p1);
+    if (p->p2 == 0) { close(p->fd); p->closed_by_peer = 1; goto out; }
+  }
   for (;;) {
     int r = p_message(p);
     if (r != 1) goto out;
@@ -935,6 +951,7 @@ static void start_peer(peer *p) {
     int sv[2]; rfbClientPtr cl; int before = nclients;
     if (socketpair(AF_UNIX, SOCK_STREAM, 0, sv) < 0) die("socketpair");
     fcntl(sv[1], F_SETFL, fcntl(sv[1], F_GETFL) | O_NONBLOCK);
+    if (sndbuf > 0) setsockopt(sv[0], SOL_SOCKET, SO_SNDBUF, &sndbuf, sizeof sndbuf);
     p->fd = sv[1];
     /* the version string is sent by the peer thread; the server's 100 ms WebSocket probe runs on
        virtual time */
@@ -1040,6 +1057,7 @@ int main(void) {
       pct_d = atoi(tok[8]); step_budget = strtoull(tok[9], NULL, 10); stickiness = atoi(tok[10]);
       if (pct_d > 16) pct_d = 16;
       guards = n >= 13 ? atoi(tok[12]) : 0;
+      sndbuf = n >= 14 ? atoi(tok[13]) : 0;
       srng = seed * 0x9E3779B97F4A7C15ull + 12345;
       for (k = 0; k < pct_d; k++) pct_cp[k] = 1 + srand64() % (n >= 12 ? strtoull(tok[11], NULL, 10) : 3000);
       /* scheduler on: the main thread is the application thread */
@@ -1078,8 +1096,8 @@ int main(void) {
     if (!strcmp(tok[0], "peer") && n >= 6) {
       peer *p; k = atoi(tok[1]); if (k < 0 || k >= MAXPEER) die("peer index");
       p = &peers[k]; memset(p, 0, sizeof *p); p->idx = k; p->used = 1; p->cid = -1; p->fd = -1;
-      p->kind = !strcmp(tok[2], "stay") ? K_STAY : !strcmp(tok[2], "leave") ? K_LEAVE : !strcmp(tok[2], "abrupt") ? K_ABRUPT : !strcmp(tok[2], "slow") ? K_SLOW : K_ABANDON;
-      p->p1 = atoi(tok[3]); p->p2 = atoi(tok[4]); p->soft = atoi(tok[5]);
+      p->kind = !strcmp(tok[2], "stay") ? K_STAY : !strcmp(tok[2], "leave") ? K_LEAVE : !strcmp(tok[2], "abrupt") ? K_ABRUPT : !strcmp(tok[2], "slow") ? K_SLOW : !strcmp(tok[2], "stall") ? K_STALL : K_ABANDON;
+      p->p1 = atoi(tok[3]); p->p2 = atoi(tok[4]); p->soft = atoi(tok[5]) & 1; p->nonewfb = (atoi(tok[5]) >> 1) & 1;
       if (p->kind == K_SLOW && p->p2 < 1) p->p2 = 1;
     } else if (!strcmp(tok[0], "connect") && n == 2) {
       k = atoi(tok[1]); if (k < 0 || k >= MAXPEER || !peers[k].used) die("connect: no such peer");
@@ -1120,6 +1138,26 @@ int main(void) {
       ev(E_CALL, NULL, 0, "iter");
       it = rfbGetClientIterator(scr);
       while ((cl = rfbClientIteratorNext(it))) { cnt += cl->sock >= 0; cnt += cl->state == RFB_NORMAL; }
+      rfbReleaseClientIterator(it);
+      ev(E_RET, NULL, 0, "iter");
+    } else if (!strcmp(tok[0], "drop") && n == 2) {
+      k = atoi(tok[1]); if (k < 0 || k >= MAXPEER || !peers[k].used) die("drop: no such peer");
+      if (peers[k].started && peers[k].fd >= 0 && !peers[k].finished) shutdown(peers[k].fd, SHUT_RDWR);
+    } else if (!strcmp(tok[0], "iterhold") && n >= 3 && !did_cleanup) {
+      rfbClientIteratorPtr it; rfbClientPtr cl = NULL; int hcnt = atoi(tok[1]), wait = atoi(tok[2]), i, cnt = 0;
+      ev(E_CALL, NULL, 0, "iter");
+      it = rfbGetClientIterator(scr);
+      for (i = 0; i <= hcnt; i++) { cl = rfbClientIteratorNext(it); if (!cl) break; cnt += cl->sock >= 0; cnt += cl->state == RFB_NORMAL; }
+      if (cl) {
+        for (i = 3; i < n; i++) {
+          k = atoi(tok[i]); if (k < 0 || k >= MAXPEER || !peers[k].used) die("iterhold: no such peer");
+          if (peers[k].started && peers[k].fd >= 0 && !peers[k].finished) shutdown(peers[k].fd, SHUT_RDWR);
+          vsleep_ms((unsigned)wait);
+        }
+        /* the client the iterator rests on is referenced: it must still be a valid record */
+        cnt += cl->sock >= 0; cnt += cl->state == RFB_NORMAL;
+        while ((cl = rfbClientIteratorNext(it))) { cnt += cl->sock >= 0; cnt += cl->state == RFB_NORMAL; }
+      }
       rfbReleaseClientIterator(it);
       ev(E_RET, NULL, 0, "iter");
     } else if (!strcmp(tok[0], "iterwrite") && n == 2 && !did_cleanup) {
@@ -1186,7 +1224,7 @@ int main(void) {
         for (k = 0; k < MAXPEER; k++) {
           peer *p = &peers[k];
           if (!p->used || !p->started || p->finished || p->kind == K_ABANDON || !p->handshook) continue;
-          if (p->kind == K_ABRUPT || p->kind == K_LEAVE) continue;   /* will leave on their own */
+          if (p->kind == K_ABRUPT || p->kind == K_LEAVE || p->kind == K_STALL) continue;   /* will leave on their own / may have been dropped by the server */
           if (p->soft) continue;                                      /* picture contains the drawn cursor by design */
           if (!p->converged) all = 0;
         }
@@ -1198,7 +1236,7 @@ int main(void) {
       for (k = 0; k < MAXPEER; k++) {
         peer *p = &peers[k];
         if (!p->used || !p->started || !p->handshook) continue;
-        if (p->kind == K_ABANDON || p->kind == K_ABRUPT || p->kind == K_LEAVE || p->soft) continue;
+        if (p->kind == K_ABANDON || p->kind == K_ABRUPT || p->kind == K_LEAVE || p->kind == K_STALL || p->soft) continue;
         printf("res pic peer=%d cid=%d %s updates=%d connected=%d waited_ms=%d\n", k, p->cid,
                p->finished ? "disconnected" : (p->converged ? "eq" : "differs"), p->updates, !p->finished, waited);
         if (!p->finished && !p->converged) {
